@@ -22,10 +22,28 @@ Definition chans (kd : nat) (o : nat) (evs : list ev) : list nat :=
                      | _, _ => []
                      end) evs.
 
+(* compact encoding of one (object, iteration) cell: at most one event of each kind, channel < 3 (the common case)
+   becomes one number; anything else (duplicates, unknown channel) is spelled out.  harness/c10.py encodes the
+   implementation's observation with the same function. *)
+Definition code1 (l : list nat) : option nat :=
+  match l with
+  | [] => Some 0
+  | [c] => if Nat.ltb c 3 then Some (S c) else None
+  | _ => None
+  end.
+
+Definition obs_cell (s : state) (evs : list ev) (o : nat) : T :=
+  let r := chans 0 o evs in
+  let w := chans 1 o evs in
+  let d := chans 2 o evs in
+  match code1 r, code1 w, code1 d with
+  | Some a, Some b, Some c =>
+      Tnat (a + 4 * b + 16 * c + 64 * (if mem o (rd s) then 1 else 0) + 128 * (if mem o (wr s) then 1 else 0))
+  | _, _, _ => Tl [Tlist Tnat r; Tlist Tnat w; Tlist Tnat d; Tbool (mem o (rd s)); Tbool (mem o (wr s))]
+  end.
+
 Definition obs_tick (pool : list nat) (x : state * list ev) : T :=
-  let '(s, evs) := x in
-  Tlist (fun o => Tl [Tlist Tnat (chans 0 o evs); Tlist Tnat (chans 1 o evs); Tlist Tnat (chans 2 o evs);
-                      Tbool (mem o (rd s)); Tbool (mem o (wr s))]) pool.
+  let '(s, evs) := x in Tlist (obs_cell s evs) pool.
 
 Definition obs_run (k : kind) (pool : list nat) (h : list op) : T :=
   let '(tr, oc, _) := run k init h in
@@ -33,3 +51,6 @@ Definition obs_run (k : kind) (pool : list nat) (h : list op) : T :=
 
 Definition obs_hist (pool : list nat) (hs hp he : list op) : T :=
   Tl [obs_run KSelect pool hs; obs_run KPoll pool hp; obs_run KEPoll pool he].
+
+(* the same history (and the same recorded statuses) for the three pollers *)
+Definition obs_hist1 (pool : list nat) (h : list op) : T := obs_hist pool h h h.
